@@ -1,9 +1,18 @@
 //! Registry: which scenario families and which oracle decide each property.
 use crate::{
-    scen_gen::{self as gen_, Profile},
-    oracles::{self, OracleFn},
+    oracles::{self, OracleFn, OracleResult},
+    scen_gen::{self as g, Profile},
     scenario::Scenario,
+    world::RunOutput,
 };
+
+#[derive(Clone, Copy, PartialEq, Eq)]
+pub enum SeedMode {
+    /// run seed = hash(base seed, family, i)
+    Hashed,
+    /// run seed = (hash(base, family) << 20) | i : the generator decodes i (systematic placement)
+    Index,
+}
 
 pub struct Family {
     pub name: &'static str,
@@ -13,32 +22,124 @@ pub struct Family {
     pub thorough: u64,
     /// Fault-free by design (a relevant run counts as non-trivial without a fault).
     pub fault_free: bool,
+    pub seed_mode: SeedMode,
+}
+
+const fn fam(name: &'static str, generate: fn(u64) -> Scenario, quick: u64, thorough: u64) -> Family {
+    Family { name, generate, quick, thorough, fault_free: false, seed_mode: SeedMode::Hashed }
 }
 
 fn c01_duplex(seed: u64) -> Scenario {
-    gen_::duplex(seed, "c01_duplex", &Profile::full(65536))
+    g::duplex(seed, "c01_duplex", &Profile::full(65536))
 }
 fn c01_duplex_long(seed: u64) -> Scenario {
     let mut p = Profile::full(2 * 1024 * 1024);
     p.tiny_mss = false;
-    gen_::duplex(seed, "c01_duplex_long", &p)
+    g::duplex(seed, "c01_duplex_long", &p)
+}
+fn c02_fair(seed: u64) -> Scenario {
+    g::c02_fair(seed, false)
+}
+fn c02_fair_defaults(seed: u64) -> Scenario {
+    g::c02_fair(seed, true)
+}
+fn c02_single_drop(seed: u64) -> Scenario {
+    let i = seed & 0xFFFFF;
+    let s = (seed >> 20) + i / 96;
+    g::c02_placement(s, &[i % 96])
+}
+fn c02_pair_drop(seed: u64) -> Scenario {
+    let i = seed & 0xFFFFF;
+    // 48 x 48 ordered pairs a<b over the first 48 datagrams
+    let per = 48 * 47 / 2;
+    let s = (seed >> 20) + i / per;
+    let mut k = i % per;
+    let mut a = 0u64;
+    while k >= 47 - a {
+        k -= 47 - a;
+        a += 1;
+    }
+    let b = a + 1 + k;
+    g::c02_placement(s ^ 0x5A5A, &[a, b])
+}
+fn c15_extremes(seed: u64) -> Scenario {
+    g::extremes(seed, "c15_extremes")
 }
 
-pub const ALL: &[&str] = &["C01"];
+pub const ALL: &[&str] = &["C01", "C02", "C03", "C08", "C11", "C14", "C15", "C16"];
 
 pub fn families(property: &str) -> Vec<Family> {
     match property {
-        "C01" => vec![
-            Family { name: "c01_duplex", generate: c01_duplex, quick: 60_000, thorough: 1_500_000, fault_free: false },
-            Family { name: "c01_duplex_long", generate: c01_duplex_long, quick: 300, thorough: 10_000, fault_free: false },
+        "C01" => vec![fam("c01_duplex", c01_duplex, 60_000, 1_500_000), fam("c01_duplex_long", c01_duplex_long, 200, 10_000)],
+        "C02" => vec![
+            fam("c02_fair", c02_fair, 15_000, 400_000),
+            fam("c02_fair_defaults", c02_fair_defaults, 15_000, 400_000),
+            Family { seed_mode: SeedMode::Index, ..fam("c02_single_drop", c02_single_drop, 96 * 200, 96 * 3000) },
+            Family { seed_mode: SeedMode::Index, ..fam("c02_pair_drop", c02_pair_drop, 0, 1128 * 150) },
+            Family { fault_free: true, ..fam("c02_prompt", g::c02_prompt, 25_000, 500_000) },
         ],
+        "C03" => vec![fam("c03_termination", g::c03, 25_000, 600_000)],
+        "C08" => vec![fam("c08_cycles", g::c08_cycles, 8_000, 200_000)],
+        "C11" => vec![fam("c11_corrupt", g::c11_corrupt, 20_000, 500_000), fam("c11_unknown_ext", g::c11_unknown_ext, 10_000, 300_000), fam("c01_duplex", c01_duplex, 10_000, 200_000)],
+        "C14" => vec![fam("c14_blackhole", g::c14_blackhole, 15_000, 400_000), fam("c14_converge", g::c14_converge, 600, 20_000), fam("c01_duplex", c01_duplex, 10_000, 200_000)],
+        "C15" | "C16" => vec![fam("c01_duplex", c01_duplex, 20_000, 500_000), fam("c15_extremes", c15_extremes, 15_000, 400_000), fam("c14_blackhole", g::c14_blackhole, 5_000, 100_000)],
         _ => vec![],
     }
+}
+
+fn retag(mut r: OracleResult, property: &'static str, prefix: &'static str) -> OracleResult {
+    for v in r.violations.iter_mut() {
+        v.property = property;
+        v.tag = match (prefix, v.tag) {
+            ("c14", "content-mismatch") => "blackhole-path-content-mismatch",
+            ("c14", "read-more-than-written") => "blackhole-path-read-more-than-written",
+            ("c11", "content-mismatch") => "unknown-extension-shifts-payload",
+            ("c11", "read-more-than-written") => "unknown-extension-duplicates-payload",
+            (_, t) => t,
+        };
+    }
+    r
+}
+
+fn merge(mut a: OracleResult, b: OracleResult) -> OracleResult {
+    a.violations.extend(b.violations);
+    for (k, v) in b.probes {
+        *a.probes.entry(k).or_insert(0) += v;
+    }
+    a.inconclusive |= b.inconclusive;
+    a
+}
+
+fn c11_oracle(sc: &Scenario, out: &RunOutput) -> OracleResult {
+    let a = oracles::c11::check(sc, out);
+    if sc.family == "c11_unknown_ext" {
+        let rel = a.relevant;
+        let mut m = merge(a, retag(oracles::c01::check(sc, out), "C11", "c11"));
+        m.relevant = rel;
+        m
+    } else {
+        a
+    }
+}
+
+fn c14_oracle(sc: &Scenario, out: &RunOutput) -> OracleResult {
+    let a = oracles::c14::check(sc, out);
+    let rel = a.relevant;
+    let mut m = merge(a, retag(oracles::c01::check(sc, out), "C14", "c14"));
+    m.relevant = rel;
+    m
 }
 
 pub fn oracle(property: &str) -> OracleFn {
     match property {
         "C01" => oracles::c01::check,
+        "C02" => oracles::c02::check,
+        "C03" => oracles::c03::check,
+        "C08" => oracles::c08::check,
+        "C11" => c11_oracle,
+        "C14" => c14_oracle,
+        "C15" => oracles::c15::check,
+        "C16" => oracles::c16::check,
         _ => panic!("no oracle for {}", property),
     }
 }
@@ -46,6 +147,13 @@ pub fn oracle(property: &str) -> OracleFn {
 pub fn expected_probes(property: &str) -> Vec<&'static str> {
     match property {
         "C01" => vec!["data_retransmissions", "duplicate_deliveries", "polls_with_out_of_order_data", "tx_ring_grew", "seq_wrapped", "mss_changed"],
+        "C02" => vec!["drops_fired", "sender_saw_zero_window_with_data", "window_update_dropped", "idle_writes", "idle_shutdowns", "flushes"],
+        "C03" => vec!["abort_landed_with_data_or_fin_outstanding", "flush_or_shutdown_ok_claims", "eof_observed", "read_error_observed", "shutdown_error_observed", "fin_lost"],
+        "C08" => vec!["connection_tasks_created", "letgo_judged", "closing_packet_lost", "cancel_or_kill", "task_failed_with_error", "too_many_active_connections_seen"],
+        "C11" => vec!["emitted_datagrams_checked", "emitted_with_extension", "verdicts_accept_corrupted", "verdicts_reject_corrupted", "unknown_extension_delivered"],
+        "C14" => vec!["probes_acked", "probes_failed_and_resegmented", "converged_transfers"],
+        "C15" => vec!["cc_rto_events", "cc_recovery_entries", "cc_mss_changes", "cc_slow_start_acks", "cc_congestion_avoidance_acks"],
+        "C16" => vec!["rto_samples", "rto_timeouts", "rto_backoff_chain_ge_3", "rto_reached_60s_cap", "rtt_sample_zero", "rtt_sample_gt_60s"],
         _ => vec![],
     }
 }
@@ -54,6 +162,13 @@ pub fn rule(property: &str) -> String {
     let common = "cases = simulated runs; each run is a pure function of a seed-derived Scenario (configuration, workload script, fault decisions); a run is non-trivial when at least one fault fired (or the family is fault-free by design) AND the property's relevance probe fired; distinct = distinct trace shapes (hash of the sequence of (sender, packet type, first/re-transmission, SACK present, fate) and application-call outcome kinds, ignoring times and numbers). ";
     let rel = match property {
         "C01" => "relevance probe: at least one data retransmission or one end-of-poll snapshot with out-of-order data held, and at least one byte read.",
+        "C02" => "relevance probe: (a) at least one budgeted drop fired; (b) at least one write or shutdown on an idle connection.",
+        "C03" => "relevance probe: a termination fault (cut, kill, RESET, cancel) landed while data or a FIN was outstanding, or a FIN was lost.",
+        "C08" => "relevance probe: at least one closing packet (FIN/RESET) was lost and at least one let-go connection was judged against its bound.",
+        "C11" => "relevance probe: at least one corrupted datagram reached a real socket's parser (verdict recorded) and at least one emitted datagram was checked.",
+        "C14" => "relevance probe: at least one MTU probe was acknowledged and at least one failed and was re-segmented.",
+        "C15" => "relevance probe: at least one timeout, recovery entry or MSS change reached the congestion controller of a running connection.",
+        "C16" => "relevance probe: the estimator of a running connection saw at least one sample and one timeout.",
         _ => "",
     };
     format!("{}{}", common, rel)
